@@ -680,6 +680,18 @@ def r03b(chk, repo, g, kinds: Kinds, forward: bool) -> None:
     after = [r for r in rets if r not in in_loop]
     chk.count("R03b.in_loop_returns", len(in_loop))
     chk.count("R03b.post_loop_returns", len(after))
+    # pre-pass: the mode of every own-meta-carrying partial return, so that ordinals (used in finding keys) are
+    # positions in source order among ALL such returns of a mode, independent of the order in which they are judged
+    chk._r03b_ordinals = {}
+    for r in in_loop:
+        if r.value is None or (isinstance(r.value, ast.Call) and call_name(r.value).endswith("MatchResult.empty_at")):
+            continue
+        own_ = [o for lab, o in insert_labels(r) if lab == "OWN"]
+        if not own_:
+            continue
+        blk_ = getattr(r, "_parent", None)
+        pend_ = [o for o in own_ if o.stmt is None or o.stmt is r or getattr(o.stmt, "_parent", None) is blk_]
+        chk._r03b_ordinals.setdefault("buffer" if pend_ else "flushed", []).append((getattr(r, "lineno", 0), getattr(r, "col_offset", 0)))
     for r in in_loop:
         if r.value is None or (isinstance(r.value, ast.Call) and call_name(r.value).endswith("MatchResult.empty_at")):
             chk.ok("R03b", f"{SEQ}::Sequence.match", short(r, 160))
@@ -719,7 +731,7 @@ def r03b(chk, repo, g, kinds: Kinds, forward: bool) -> None:
             f"({'; '.join(sorted({short(o.expr, 70) + ' @' + str(getattr(o.stmt, 'lineno', '?')) for o in own}))}). "
             f"In {len(hazards)} grammar sequence(s) of the bundled dialects that prefix is unbalanced: {ex}. An Indent whose Dedent sits "
             "behind the element that failed is emitted alone, so the leaf balance of the tree no longer returns to zero",
-            detail=f"partial return ({mode}) emits no unbalanced prefix of own metas: {short(r, 110)}",
+            detail=f"partial return ({mode}) #{_mode_ordinal(chk, mode, r)} emits no unbalanced prefix of own metas",
             extra={"mode": mode, "hazards": hazards[:40]},
         )
     # the completed return flushes what is left in the buffer
@@ -757,6 +769,18 @@ def run(chk) -> None:
     r03b(chk, repo, g, Kinds(g), forward)
     r03a(chk, repo, g)
     r03c(chk, repo)
+
+
+def _mode_ordinal(chk, mode: str, r) -> int:
+    """Ordinal (source order) of a partial return among those of the same mode: keys a finding by site without using
+    the statement's text, so that a rename does not re-key it and a further return of the same mode gets its own key."""
+    if not hasattr(chk, "_r03b_ordinals"):
+        chk._r03b_ordinals = {}
+    ids_ = chk._r03b_ordinals.setdefault(mode, [])
+    ident = (getattr(r, "lineno", 0), getattr(r, "col_offset", 0))
+    if ident not in ids_:
+        ids_.append(ident)
+    return sorted(ids_).index(ident) + 1
 
 
 def r03c(chk, repo) -> None:
@@ -1040,7 +1064,7 @@ VARIANTS = [
         "sequence-unstarted-return-carries-buffer", SEQ,
         "                        matched_slice=slice(start_idx, max_idx),\n                        matched_class=UnparsableSegment,\n                        segment_kwargs={\n                            \"expected\": (\n                                f\"{elem} to start sequence.",
         "                        matched_slice=slice(start_idx, max_idx),\n                        matched_class=UnparsableSegment,\n                        insert_segments=tuple((start_idx, meta) for meta in meta_buffer),\n                        segment_kwargs={\n                            \"expected\": (\n                                f\"{elem} to start sequence.",
-        "R03b", "matched_class=UnparsableSegment", "a third partial return starts to carry the pending metas",
+        "R03b", "partial return (buffer) #", "a third partial return starts to carry the pending metas",
     ),
     Variant(
         "ansi-select-indent-before-modifier", ANSI,
